@@ -217,6 +217,8 @@ pub fn check_carried_over(seed: &[(Vec<u8>, Vec<u8>)], st: &StateCtx, sink: &mut
             Some(got) if *got == exp => {}
             got => {
                 sink.v("C15", "C15/carried-over-bid-differs-from-reference-conversion".into(), format!("expected {exp:?}, on the book {got:?}"));
+                // C11: an upgrade names no order: every recorded order keeps its terms and its remaining amounts across it
+                sink.v("C11", "C11/carried-over-bid-changed-or-lost-by-the-upgrade".into(), format!("recorded before the upgrade {exp:?}, on the book after it {got:?}"));
                 let same_rem = got.map_or(false, |g| (g.rem_base(), g.rem_quote(), g.rem_fee()) == (exp.rem_base(), exp.rem_quote(), exp.rem_fee()) && g.owner == exp.owner);
                 if !same_rem {
                     let d = format!("escrow still held for it {:?}, recorded {:?}", (exp.rem_base(), exp.rem_quote(), exp.rem_fee()), got.map(|g| (g.rem_base(), g.rem_quote(), g.rem_fee())));
@@ -1084,6 +1086,20 @@ fn c02_c03_match(tc: &TransCtx, sink: &mut Sink) {
                 let askacct = info.ask_fee_info.as_ref().map(|f| f.account.as_str());
                 let bidacct = info.bid_fee_info.as_ref().map(|f| f.account.as_str());
                 let to = |acct: &str| -> u128 { a.flows.iter().filter(|f| f.from == CONTRACT && f.to == acct).map(|f| f.amount).sum() };
+                // the selling side is itself the ask-fee account: proceeds and fee both reach it, i.e. the whole executed amount
+                if let Some(acct) = askacct {
+                    let seller: &str = match &ask.class {
+                        AskClass::Ready { approver, .. } => approver,
+                        _ => &ask.owner,
+                    };
+                    if acct == seller && acct != bid.owner && Some(acct) != bidacct && acct != CONTRACT {
+                        sink.c("C09/match/seller-is-ask-fee-account");
+                        let got: u128 = a.flows.iter().filter(|f| f.from == CONTRACT && f.to == acct && f.denom == bid.quote_denom).map(|f| f.amount).sum();
+                        if got != r.gross {
+                            sink.v("C09", "C09/match/ask-fee-does-not-reach-the-fee-account".into(), format!("{acct} is seller and ask-fee account and received {got} of {} executed (fee {})", r.gross, r.ask_fee));
+                        }
+                    }
+                }
                 if let Some(acct) = askacct {
                     if !parties.contains(&acct) && Some(acct) != bidacct {
                         sink.c("C09/match/ask-fee-compared");
@@ -1228,8 +1244,23 @@ fn c04_reversal(tc: &TransCtx, sink: &mut Sink) {
         Outcome::Accepted(a) => a,
         _ => return,
     };
-    let _ = a;
     let kind = tc.act.req.kind();
+    // "returns ... to whoever escrowed it": a payout requested through a mechanism the chain refuses for
+    // that denomination (or of a zero coin) returns nothing - the whole request fails there
+    let refused_by_chain: Vec<String> = a
+        .flows
+        .iter()
+        .filter(|f| match &f.kind {
+            FlowKind::Bank => tc.st.cfg.restricted(&f.denom) || f.amount == 0,
+            FlowKind::MarkerTransfer { .. } => !tc.st.cfg.restricted(&f.denom) || f.amount == 0,
+            FlowKind::Attached => false,
+        })
+        .map(|f| format!("{f:?}"))
+        .chain(a.bad_msgs.iter().cloned())
+        .collect();
+    if !refused_by_chain.is_empty() {
+        sink.v("C04", format!("C04/{kind}/return-requested-in-a-form-the-chain-refuses"), format!("{refused_by_chain:?}"));
+    }
     let book = &tc.st.book;
     let post = tc.post.as_ref().unwrap();
     let info = match &book.info {
